@@ -524,6 +524,35 @@ pub fn impostor_run(honest: &Conf, impostor: &Conf) -> Result<(bool, bool, bool)
   Ok((impostor_is_replier, side.authenticated(), side.secret(peer).is_some()))
 }
 
+/// Plug-in interface, past the discovery layer's routing: after the replier has sent its reply, a request is
+/// handed to `begin_handshake_reply` once more - the genuine one replayed, or one with a foreign dh1 and
+/// challenge1 - and then the genuine final message arrives.  Whatever the plug-in makes of the second request,
+/// the genuine handshake has to complete: (the second call was accepted, the replier completed).
+pub fn second_request_run(conf_a: &Conf, conf_b: &Conf, forged: bool, other: &Transcript) -> Result<(bool, bool), String> {
+  let mut p = Pair::start(conf_a, conf_b)?;
+  if !p.step() {
+    return Err("MACHINERY: no reply".into());
+  }
+  // p.m = [request, reply]; the replier waits for the final message
+  let (ap, bp) = (p.ap(), p.bp());
+  let second = if forged {
+    // the request of another, earlier handshake: other dh1 and challenge1
+    other.m[0].clone()
+  } else {
+    p.m[0].clone()
+  };
+  let pd = p.b.part.pdata();
+  let accepted = p.b.part.h.get_plugins().begin_handshake_reply(bp, ap, second, pd).is_ok();
+  // the genuine run continues: reply -> requester -> final -> replier
+  for _ in 0..2 {
+    if !p.step() {
+      break;
+    }
+  }
+  p.continue_genuinely(None, 3);
+  Ok((accepted, p.b.authenticated() && p.a.authenticated() && p.secrets_equal()))
+}
+
 pub fn run(conf_a: &Conf, conf_b: &Conf, sc: &Scenario, old: &Transcript) -> Result<RunResult, String> {
   let mut p = Pair::start(conf_a, conf_b)?;
   // the adversary can only alter messages that exist already
